@@ -7,8 +7,43 @@ SEARCH_DIMS = [(nsc + 3, nt, nsc) for nt in (4, 6, 8, 10, 12, 14, 16) for nsc in
 STRESS = [('201', '6', '3', '2'), ('150', '10', '4', '4'), ('121', '8', '5', '3'), ('101', '12', '6', '5'), ('9', '8', '3', '16'), ('161', '16', '2', '7')]
 
 
+def owner_search(res, cr):
+    """model-side search over the regenerated owner-computes regions (runs always; it is what names the clashing iterations
+    when C11_owner_regions_race_free no longer proves)"""
+    import os, re
+    rc, out, _ = C.sh('timeout 300 make -k gen/ParOwnerGen.vo theories/ParOwnerDefs.vo', cwd=C.COQ, timeout=330)
+    if rc != 0:
+        res.coverage['owner_race_search'] = 'generated file does not compile (translator rejected the source)'
+        return
+    os.makedirs(C.WORK, exist_ok=True)
+    f = os.path.join(C.WORK, 'OwnerSearch.v')
+    dims = [(9, 8, 5), (5, 4, 2), (7, 6, 3), (13, 12, 1)]
+    with open(f, 'w') as h:
+        h.write('From Coq Require Import List ZArith String.\nFrom GMGP Require Import ParDefs ParOwnerDefs.\nFrom GMGPGen Require Import ParOwnerGen.\n'
+                'Import ListNotations.\nLocal Open Scope Z_scope.\n')
+        for nr, nt, nsc in dims:
+            h.write('Eval vm_compute in (("DIMS"%%string, %d, %d, %d), map (fun r => (fst r, owner_find_race (snd r) (mkDims %d %d %d))) gen_owner_regions).\n'
+                    % (nr, nt, nsc, nr, nt, nsc))
+    rc, out, _ = C.sh('timeout 120 coqc -Q theories GMGP -Q gen GMGPGen %s' % f, cwd=C.COQ, timeout=150)
+    flat = ' '.join(out.split())
+    regions = len(re.findall(r'\("[^"]+:\d+"%string, ', flat)) // max(1, len(dims))
+    hits = re.findall(r'\("([^"]+:\d+)"%string, Some \("([^"]+)"%string, (-?\d+), (-?\d+)\)\)', flat)
+    res.coverage['owner_race_search'] = {'regions': regions, 'grids': dims, 'clashes': len(hits)}
+    for where, arr, o1, o2 in hits[:2]:
+        res.violation('owner-race:%s:%s' % (where.split(':')[0], arr), {
+            'what': 'two iterations of a work-shared loop (or of two loops with only nowait between them) that may run concurrently write the same '
+                    'element / shared scalar, or one writes what the other reads', 'region': where, 'array_or_scalar': arr,
+            'outer_iterations': [int(o1), int(o2)], 'model': 'ParOwnerDefs.owner_find_race on the regenerated region (gen/ParOwnerGen.v)',
+            'how_to_observe': 'run the operator with 2+ threads on a grid with more than 10 000 nodes and compare with the 1-thread result '
+                              '(build/harness/h_interp threads; build/harness/h_repro kernels)'})
+
+
 def run(res, tier, seed):
     res.trusted_base += [
+        'translator T2b (translate/t2b_owner_loops.py): every `#pragma omp parallel` construct of src/Interpolation/*.cpp, levelCache.cpp, build_rhs_f.cpp, '
+        'solver.cpp, vector_operations.h, vector.h, coo_matrix.h (34 regions) as ParOwnerDefs.oloop records: nowait, ranges, every write to memory not '
+        'declared inside the loop body with the loop variables its index uses, shared scalars, arrays read at foreign indices; macros of the same file '
+        'expanded textually; callees are assumed to write only through the arguments they are given',
         'translator T2 (translate/t2_regions.py): loop bounds, strides, nowait clauses, loop bodies and the placement of the scratch-vector '
         'declarations of eight work-sharing regions (residual give/take, direct-solver assembly give/take, four smoothers), regenerated as ParDefs.phase lists',
         'hand-written footprints of the task functions (ParDefs.footprint, boxes of (array, i_r, i_theta) cells), validated by K-footprint: '
@@ -18,17 +53,19 @@ def run(res, tier, seed):
     ]
     res.assumptions += [
         'modelled, not verified: the OpenMP runtime implements the implicit barriers; accesses inside the per-line solver objects and the STL are as '
-        'hand-modelled (one solver object per line); regions not translated (smoother matrix assembly, transfer operators, level '
-        'caches, rhs build, vector kernels, the task-based smoother variant that the library does not call) are outside this check',
+        'hand-modelled (one solver object per line); regions not translated (smoother matrix assembly, the MUMPS-only '
+        'symmetry shift, the task-based smoother variant that the library does not call) are outside this check; for the owner-computes regions the '
+        'footprints come from the syntax of the loop bodies (T2b), not from measurement',
         'perturbation cannot see a write that stores the value already present, nor accesses to thread-private scratch',
     ]
-    tr = C.run_translators(['t2_regions'])
+    tr = C.run_translators(['t2_regions', 't2b_owner_loops'])
     for n, ok, msg in tr:
         res.obligation('translator:' + n, ok, msg[-300:])
         if not ok:
             res.fail('translator:' + n, msg)
     cr = C.coq_build('C11', timeout=3000)
     res.add_coq(cr)
+    owner_search(res, cr)
     okm, msgm = C.build_model_driver()
     if not okm:
         res.fail('model-extraction', msgm)
